@@ -31,6 +31,25 @@ func roundTrip(s smbgen.Struct, rels []smbgen.Relation, mode smbgen.Mode, iter i
 	rng := r.Rand(fmt.Sprintf("rt|%s|%d|%d", s.Name, mode, iter))
 	c := s.New()
 	smbgen.Fill(c, rels, rng, mode, maxLen)
+	// alignment pads are 0 or 1 byte depending on the position of what follows: take the
+	// length (0 first, then 1) under which the structure decodes its own encoding
+	if pads := smbgen.PadFields(rels); len(pads) > 0 {
+		for n := 0; n < 2; n++ {
+			for _, pf := range pads {
+				reflect.ValueOf(c).Elem().FieldByName(pf).SetBytes(make([]byte, n))
+			}
+			b, err, pan, _, _ := marshal(c)
+			if pan || err != nil {
+				continue
+			}
+			d := s.New()
+			var uerr error
+			pan, _, _ = mon.Guard(func() { _, uerr = d.Unmarshal(b) })
+			if !pan && uerr == nil && reflect.ValueOf(d).Elem().FieldByName(pads[0]).Len() == n {
+				break
+			}
+		}
+	}
 	cs := func(extra map[string]any) map[string]any {
 		m := map[string]any{"struct": s.Name, "mode": smbgen.ModeNames[mode], "iter": iter, "fields": fmt.Sprintf("%+v", reflect.ValueOf(c).Elem().Interface())}
 		for k, v := range extra {
@@ -186,7 +205,7 @@ func main() {
 	}
 	only := os.Getenv("VERIF_ONLY")
 	unconstrained := map[string][]string{}
-	nRandom := r.Pick(60, 3000)
+	nRandom := r.Pick(400, 3000)
 	var names []string
 	for _, s := range structs {
 		if only != "" && s.Name != only {
